@@ -160,11 +160,13 @@ def c01sys (args res : List String) : Verdict :=
       let evl := script.splitOn ";"
       let outl := outs.splitOn ";"
       let listed (i : Nat) : String := hexNoX (pieceHash i plen true)
-      let rec go : List String → List String → SysM → List String → Nat → Option Verdict
-        | [], _, _, _, _ => none
-        | _ :: _, [], _, _, _ => some (vBad "fewer outputs than events")
-        | ev :: evs, out :: outs, S, seenFiles, n =>
+      -- `div`: the first disagreement with the model; after it only the oracles on the implementation's own data go on
+      let rec go : List String → List String → SysM → List String → Nat → Option Verdict → Option Verdict
+        | [], _, _, _, _, div => div
+        | _ :: _, [], _, _, _, div => if div.isSome then div else some (vBad "fewer outputs than events")
+        | ev :: evs, out :: outs, S, seenFiles, n, div =>
           if out = "HANG" then some (vProp "v-manager-hangs" "sys") else
+          if out = "P" then some (vProp "a-task-or-the-manager-panicked" "sys") else
           match out.splitOn "~" with
           | [logS, stS, psS, wrS, flS] =>
             let implSt := (parseStatuses stS).getD []
@@ -174,9 +176,17 @@ def c01sys (args res : List String) : Verdict :=
             let unowned := (List.range implSt.length).find? fun i =>
               implSt.getD i .missing = .have && !(seen'.any fun f => f.startsWith s!"{listed i}:x{listed i}:")
             if unowned.isSome then some (vProp "T6-piece-treated-as-owned-without-a-verified-piece-file" s!"sys-ev{min n 9}") else
+            -- C11 on the implementation's own data: a Have leaves only for a piece with a verified file
+            let announced : List Nat := if wrS = "-" then [] else
+              (wrS.splitOn "+").flatMap fun part =>
+                ((part.splitOn "=").drop 1 |> "=".intercalate |>.splitOn "/").filterMap fun t =>
+                  if t.startsWith "w=hv," then (t.drop 5).toString.toNat? else none
+            if announced.any (fun i => !(seen'.any fun f => f.startsWith s!"{listed i}:x{listed i}:")) then
+              some (vProp "T2-have-announced-for-a-piece-without-a-verified-piece-file" s!"sys-ev{min n 9}") else
             -- every file written is named by its own data hash
             if newFiles.any (fun f => match f.splitOn ":" with | [nm, dh, _] => "x" ++ nm ≠ dh | _ => true) then
               some (vProp "T1-piece-file-written-with-data-that-does-not-hash-to-its-name" "sys") else
+            if div.isSome then go evs outs S seen' (n + 1) div else
             match parseLog logS with
             | none => some (vBad logS)
             | some log =>
@@ -211,15 +221,15 @@ def c01sys (args res : List String) : Verdict :=
                    (settle np plen none (log1.length + 4) S1 log1 (if ended then [k] else []) []).map (·, []))
               | _ => .error s!"bad event {ev}"
             match stepped with
-            | .error x => some (vDiff s!"event{n}" x "sys")
+            | .error x => go evs outs S seen' (n + 1) (some (vDiff s!"event{n}" x "sys"))
             | .ok (S1, logRest) =>
-              if !logRest.isEmpty then some (vDiff s!"event{n}" s!"commands the model does not produce: {logRest.map (fun e => s!"{e.k}:{e.cmd}")}" "sys") else
+              if !logRest.isEmpty then go evs outs S seen' (n + 1) (some (vDiff s!"event{n}" s!"commands the model does not produce: {logRest.map (fun e => s!"{e.k}:{e.cmd}")}" "sys")) else
               let model := s!"{statusesTok S1.m.statuses}~{mpeersTok S1.m.peers}~{writesTok S1.writes}~{if S1.files.isEmpty then "-" else "+".intercalate S1.files}"
               let impl := s!"{stS}~{psS}~{wrS}~{flS}"
-              if model ≠ impl then some (vDiff s!"event{n}" model "sys")
-              else go evs outs S1 seen' (n + 1)
-          | _ => some (vBad out)
-      match go evl outl { m := { statuses := List.replicate np .missing, peers := [] }, tasks := [] } [] 0 with
+              if model ≠ impl then go evs outs S seen' (n + 1) (some (vDiff s!"event{n}" model "sys"))
+              else go evs outs S1 seen' (n + 1) none
+          | _ => if div.isSome then div else some (vBad out)
+      match go evl outl { m := { statuses := List.replicate np .missing, peers := [] }, tasks := [] } [] 0 none with
       | some v => v
       | none =>
         let conns := (evl.filter (·.startsWith "a")).length
